@@ -643,6 +643,21 @@ func c05Set(r *ev.Run, d *C05Data, set *C05Set, idx int) error {
 						}
 					}
 				}
+				// the prefix glued to the route text without the separating slash (/zq9 + a/b): not "prefix + path"
+				if !q.Hand && len(q.Target) > 1 && q.Target[0] == '/' && q.Target[1] != '/' {
+					qg := q
+					qg.Target = prefix + q.Target[1:]
+					og := observe(srvP, recP, qg, "")
+					if og.Status != -1 {
+						r.Eval(1)
+						r.Count("class_prefix-glued", 1)
+						if og.Panic != "" {
+							viol("panic", "with the prefix glued to the path: "+og.Panic)
+						} else if og.Calls > 0 || og.Status != 404 || og.FindOK {
+							viol("prefix-glued-is-routed", fmt.Sprintf("server with prefix %q answered %q (no slash between prefix and route): status %d op %q find=%v", prefix, qg.Target, og.Status, og.Op, og.FindOK))
+						}
+					}
+				}
 				// without the prefix in the request -> 404, handler not invoked
 				on := observe(srvP, recP, q, "")
 				if on.Status != -1 && (on.Calls > 0 || on.Status != 404 || on.FindOK) {
